@@ -65,6 +65,8 @@ func main() {
 			os.Exit(2)
 		}
 		os.Exit(cmdCheck(fs.Arg(0), fs.Arg(1), *only, *workers))
+	case "selfcheck":
+		os.Exit(cmdSelfcheck())
 	case "replay":
 		if len(os.Args) < 4 {
 			fmt.Println("usage: gosym replay <prop> <vector>")
